@@ -304,3 +304,18 @@ def show(n, depth=0, maxdepth=6):
     if k == "assign":
         return f"{s(n['lhs'])} = {s(n['rhs'])}"
     return f"<{k}>"
+
+
+def show_stmts(block, maxdepth=12):
+    """Render every statement of a block (not just the tail expression)."""
+    if block is None:
+        return ""
+    if block.get("k") != "block":
+        return show(block, 0, maxdepth)
+    out = []
+    for st in block["s"]:
+        if st.get("k") == "local":
+            out.append(f"let {show(st['pat'], 0, maxdepth)} = {show(st.get('init'), 0, maxdepth)}")
+        else:
+            out.append(show(st, 0, maxdepth))
+    return "; ".join(out)
